@@ -227,6 +227,32 @@ func (g *Gen) hostileTx() GenTx {
 	return g.mk("SEND", note, &transfer.Send{From: a.Addr, To: b.Addr, Amount: amtOf("VT", n)}, a)
 }
 
+// forgedCopy keeps the signed content and the signer keys of an executed transaction and replaces
+// the signature bytes: by a changed byte, by bytes of another length, or by nothing at all. The
+// result is a different transaction (another hash) that nobody signed; its Signer list is empty,
+// so the value ledger treats every debit it causes as unauthorised.
+func forgedCopy(orig GenTx, r *rng.R) GenTx {
+	st, ok := parseSigned(orig.Bytes)
+	if !ok || len(st.Signatures) == 0 {
+		return GenTx{}
+	}
+	for i := range st.Signatures {
+		sig := append([]byte{}, st.Signatures[i].Signed...)
+		switch r.Intn(3) {
+		case 0:
+			if len(sig) > 0 {
+				sig[r.Intn(len(sig))] ^= 0x40
+			}
+		case 1:
+			sig = []byte("these bytes are not a signature of anybody")
+		default:
+			sig = nil
+		}
+		st.Signatures[i].Signed = sig
+	}
+	return GenTx{Kind: orig.Kind, Note: "forged-copy:" + orig.Note, Bytes: serSigned(st)}
+}
+
 // strangerTx: the signer is an attacker, an address field of the payload names a third party.
 func (g *Gen) strangerTx() GenTx {
 	att, victim := g.acct(), g.acct()
@@ -323,6 +349,7 @@ func RunLedger(opt LedgerOptions) (*Result, error) {
 		var prev *Ledger
 		prevDump := map[string]string{}
 		hostileOK, movers := 0, 0
+		var executed []GenTx // successfully executed transactions of earlier blocks (sources of forged copies)
 		stop := false
 		for bi := 0; bi < opt.Blocks && !stop; bi++ {
 			g.Height = sim.Height + 1
@@ -335,6 +362,13 @@ func RunLedger(opt LedgerOptions) (*Result, error) {
 					t = g.hostileTx()
 				case x < 3:
 					t = g.strangerTx()
+				case x < 4 && len(executed) > 0:
+					// a copy of a transaction that was executed earlier, with the signer's key and
+					// bytes its key never produced as the signature: nobody signed THIS transaction
+					t = forgedCopy(executed[r.Intn(len(executed))], r)
+					if t.Bytes == nil {
+						t = g.Next(wt)
+					}
 				default:
 					t = g.Next(wt)
 				}
@@ -382,6 +416,14 @@ func RunLedger(opt LedgerOptions) (*Result, error) {
 						hostileOK++
 					}
 					movers++
+					if strings.HasPrefix(t.Note, "forged-copy") {
+						res.Hit("forged-copy-executed", c, fmt.Sprintf("block %d: a copy of an executed %s with the signer's key and a signature its key did not make was executed with code 0", b.Height, t.Kind), hl.Lines)
+					} else if len(t.Signer) > 0 && len(executed) < 64 {
+						executed = append(executed, t)
+					}
+				}
+				if strings.HasPrefix(t.Note, "forged-copy") {
+					res.Counters["forged_copies_delivered"]++
 				}
 				for _, s := range t.Signer {
 					a := AddrStr(s)
